@@ -1,4 +1,43 @@
-import NiflyVerif.Wire.Header
+import NiflyVerif.Wire.HeaderLemmas
+/-!
+# C01 — load/save round trip reaches a byte-level fixed point (file level)
+
+File model: header ++ block payloads ++ footer, payloads opaque. What is proved here is the file-level
+composition: a file the library wrote (header tables consistent with the payloads) is decoded by the
+reader to exactly the header and payloads it was built from, and re-encoding those gives back the same
+bytes — so the raw save is a fixed point *provided every block's `Sync` is reversible* (reading a payload and
+writing it again gives the payload). That block-level fact is established per block type and version by the
+differential campaign of this check (all 304 registered types × 12 versions, populated instances), not by a
+theorem yet (see DESIGN.md §5.3 for the planned generic theorem).
+-/
 namespace Nifly.Wire
-theorem footer_length : footer.length = 8 := by decide
+
+/-- a written file: header, payloads, footer -/
+def encFile (h : Header) (blocks : List Bytes) : Bytes := encHeader h ++ blocks.flatten ++ footer
+
+/-- decode ∘ encode = id on files whose size table lists the payload lengths -/
+theorem file_decode_encode (h : Header) (wf : HeaderWF h) (blocks : List Bytes) (hs : hasSizes h.file = true)
+    (hsz : h.sizes = blocks.map List.length) : walkFile (encFile h blocks) = some (h, blocks) := by
+  unfold walkFile encFile
+  rw [List.append_assoc, decHeader_encHeader h wf]
+  simp only [hs, Bool.not_true, Bool.false_eq_true, if_false, hsz]
+  rw [splitBlocks_flatten]
+  simp
+
+/-- **File-level fixed point.** Re-encoding what the reader decoded from a written file reproduces the file
+byte for byte. -/
+theorem raw_fixed_point (h : Header) (wf : HeaderWF h) (blocks : List Bytes) (hs : hasSizes h.file = true)
+    (hsz : h.sizes = blocks.map List.length) :
+    (walkFile (encFile h blocks)).map (fun p => encFile p.1 p.2) = some (encFile h blocks) := by
+  rw [file_decode_encode h wf blocks hs hsz]; rfl
+
+/-- the little-endian integer codec used by every field is a bijection between values below 256^w and byte
+strings of length w (both directions of the primitive round trip) -/
+theorem prim_roundtrip (w n : Nat) (h : n < 256 ^ w) (b : Bytes) (hb : IsBytes b) :
+    leDecode (leEncode w n) = n ∧ leEncode b.length (leDecode b) = b :=
+  ⟨leDecode_leEncode w n h, leEncode_leDecode b hb⟩
+
+example : (walkFile (encFile { verLine := [65], file := V 20 2 0 7, user := 12, «stream» := 100, numBlocks := 2,
+    types := [[66]], tidx := [0, 0], sizes := [1, 2] } [[7], [8, 9]])).isSome = true := by decide
+
 end Nifly.Wire
